@@ -79,3 +79,45 @@ Example C03_boundary_example :
   | _ => False
   end.
 Proof. vm_compute. repeat split. Qed.
+(* ---- the 25 lines: scope-trace model (Model/ScopeTrace.v over Gen/ScopeOps.v, regenerated from the source on every run) *)
+From NV Require Import Model.ScopeBase Gen.ScopeOps Model.ScopeTrace Model.ScopeBody Proofs.ScopeTraceProofs.
+Local Open Scope Z_scope.
+
+(* at the closing brace of a function with a well-nested body the Function scope has counted every line end of the gap, the `{`
+   statement and all body statements: lines handed up by brace-less control structures of any depth are not lost *)
+Theorem C03_lines_counter : forall g rest hs E nl gap nlo b, isglobal g -> last_ok hs -> gap_ok gap -> body b ->
+  exists q F, run (mkstate (g :: rest) hs E) (s_func nl :: gap ++ s_open nlo :: b) = Some q /\
+    hd_error (chain q) = Some F /\ s_kind F = k_function /\ s_lines F = total_nl gap + nlo + total_nl b.
+Proof. exact lines_counter. Qed.
+Print Assumptions C03_lines_counter.
+
+Theorem C03_too_many_lines_iff : forall g rest hs E nl nlo b nlc, isglobal g -> last_ok hs -> body b ->
+  exists q, run (mkstate (g :: rest) hs E) (block_of (s_func nl) [] nlo b nlc) = Some q /\
+    ems q = (if nlo + total_nl b >? brace_limit then [tml] else []) ++ E.
+Proof. exact too_many_lines_iff. Qed.
+Print Assumptions C03_too_many_lines_iff.
+
+(* `{` alone on its line: exactly one TOO_MANY_LINES iff the body has more than 25 line ends - none at 25, always at 26 *)
+Theorem C03_too_many_lines_25 : forall g rest hs E nl b nlc, isglobal g -> last_ok hs -> body b ->
+  exists q, run (mkstate (g :: rest) hs E) (block_of (s_func nl) [] 1 b nlc) = Some q /\
+    ((total_nl b > 25 -> ems q = tml :: E) /\ (total_nl b <= 25 -> ems q = E)).
+Proof. exact too_many_lines_25. Qed.
+Print Assumptions C03_too_many_lines_25.
+
+(* Context.update pops every one-instruction control structure that holds its instruction, crediting each parent *)
+Theorem C03_update_pops_chain : forall cs c H rest fuel hist,
+  (match hist with x :: _ => str_in x update_skipped | [] => false end) = false ->
+  Forall ready (c :: cs) -> bl H = false -> (List.length cs < fuel)%nat ->
+  ctx_update (S fuel) hist (c :: cs ++ H :: rest) None = Some (add_lines H (sum_lines (c :: cs)) :: rest, None).
+Proof. exact update_pops. Qed.
+Print Assumptions C03_update_pops_chain.
+
+Theorem C03_limits_tie : NV.Gen.Limits.limits_check_brace = [("context.scope.lines"%string, ">"%string, brace_limit)] /\
+                         NV.Gen.Limits.limits_check_line_count = [("context.scope.lines"%string, ">"%string, line_count_limit)].
+Proof. exact limits_tie. Qed.
+Print Assumptions C03_limits_tie.
+
+Theorem C03_nine_shapes_at_the_boundary :
+  map (fun sh => (emitted_by (sh 25%nat), emitted_by (sh 26%nat))) shapes = repeat (Some ([], 1%nat), Some ([tml], 1%nat)) 9.
+Proof. exact nine_shapes_at_the_boundary. Qed.
+Print Assumptions C03_nine_shapes_at_the_boundary.
